@@ -152,6 +152,28 @@ func drawC09(t *rapid.T) C09Case {
 		MultiLineDesc: true,
 	}
 	j := gen.GenJournal(t, cfg)
+	// several prices for one pair on one day (either direction): within one file the last one counts, and
+	// printing must not change which one that is
+	if cfg.Prices == 1 && rapid.IntRange(0, 2).Draw(t, "sameDayPrices") == 0 {
+		var prices []int
+		for i, d := range j.Directives {
+			if d.Kind == ref.KPrice {
+				prices = append(prices, i)
+			}
+		}
+		if len(prices) > 0 {
+			n := rapid.IntRange(1, 3).Draw(t, "nSameDay")
+			for k := 0; k < n; k++ {
+				src := j.Directives[prices[rapid.IntRange(0, len(prices)-1).Draw(t, "dupOf")]]
+				d := ref.Directive{Kind: ref.KPrice, Date: src.Date, Com: src.Com, Target: src.Target, Price: gen.DrawPrice(t)}
+				if rapid.Bool().Draw(t, "flipDirection") {
+					d.Com, d.Target = d.Target, d.Com
+				}
+				pos := rapid.IntRange(0, len(j.Directives)).Draw(t, "dupPos")
+				j.Directives = append(j.Directives[:pos:pos], append([]ref.Directive{d}, j.Directives[pos:]...)...)
+			}
+		}
+	}
 	if rapid.IntRange(0, 2).Draw(t, "shuffle") == 0 {
 		j.Directives = gen.Shuffle(t, j.Directives)
 	}
